@@ -15,7 +15,8 @@
 //!   srv      SRV + additional addresses                    (512)
 //!   referral delegation with in-bailiwick glue (mandatory), sibling glue,
 //!            in-zone and out-of-zone server names (optional); also with a
-//!            server named like the delegated zone itself (glue at the cut)
+//!            server named like the delegated zone itself (glue at the cut),
+//!            and reached through a CNAME (answer + referral in one response)
 //!   negative NXDOMAIN with a ~360-octet SOA, QNAME 134..196 octets (512)
 //!   oversize RRsets that cannot fit in 65 535 octets
 //!   size-sweep  (families::size_sweep, shared with C01) answer-less
@@ -233,6 +234,16 @@ pub fn build(w: usize) -> Built {
                 z.push(rec(&ns2, t::A, vec![10, 8, 255, 1]));
                 for k in (1..=63).step_by(2) {
                     q.push(Query { scenario: "referral-self-named", qname: xk(k, &format!("{sub}.z.")), qtype: t::A, upper_bound: 3 * centre + 2000 });
+                }
+                // a CNAME whose target lies below the first delegation of
+                // this step: the answer section holds the CNAME, the
+                // authority section the referral, and the glue is as
+                // mandatory as in a plain referral
+                let target = wname(&format!("w.dg{centre}g{g:03}.z."));
+                for k in (1..=63).step_by(2) {
+                    let o = xk(k, &format!("cr{centre}g{g:03}.z."));
+                    z.push(rec(&o, t::CNAME, target.clone()));
+                    q.push(Query { scenario: "cname-into-referral", qname: o, qtype: t::A, upper_bound: 3 * centre + 2000 });
                 }
             }
         }
